@@ -155,7 +155,7 @@ def canon(a: np.ndarray) -> np.ndarray:
     """native byte order, C-contiguous copy: the logical array"""
     if a.dtype.kind == "O":
         return a
-    return np.ascontiguousarray(a, dtype=a.dtype.newbyteorder("="))
+    return np.asarray(a, dtype=a.dtype.newbyteorder("="), order="C")    # (ascontiguousarray would make 0-d 1-d)
 
 
 def same_dtype(a, b) -> bool:
@@ -516,6 +516,160 @@ def run_store(case):
     return {"store": o, "construct": obs}, fails
 
 
+def _elem_ok(x, e, flag):
+    if not isinstance(x, np.ndarray):
+        return False
+    if x.shape != e.shape or dname(x.dtype) != dname(e.dtype):
+        return False
+    if flag:
+        return True
+    if x.dtype.kind in "US":
+        return x.ravel().tolist() == e.ravel().tolist()
+    return same_array(x, e)
+
+
+def _scribble(x):
+    """the caller edits a decoded element in place; returns False when it is not writeable"""
+    if not isinstance(x, np.ndarray) or x.size == 0:
+        return False
+    try:
+        if x.dtype.kind == "b":
+            x[...] = ~x
+        elif x.dtype.kind in "US":
+            x[...] = "Z"
+        elif x.dtype.kind == "f":
+            x[...] = -12345.5
+        else:
+            x[...] = 77 if int(x.ravel()[0]) != 77 else 78
+    except ValueError:
+        return False
+    return True
+
+
+def run_multistore(case):
+    """several var-length properties — same-named node and edge properties among them — in one store;
+    read with read_to_memory, geff.read and a GeffReader whose build() is called repeatedly with
+    different masks while the caller edits earlier results in place.  Every decoded element must equal
+    the stored (normalised) value of the node/edge it is attached to; earlier results must not change
+    when a later build runs."""
+    import copy
+
+    import geff
+    import geff_spec
+    import zarr
+    from geff.core_io import write_arrays
+    from geff.core_io._base_read import GeffReader, read_to_memory
+
+    fails = []
+    res = {"props": {}}
+    n = case["n_nodes"]
+    edges = np.asarray(case["edges"], dtype=np.int64).reshape(-1, 2)
+    node_ids = np.arange(10, 10 + n, dtype=np.int64)          # ids differ from positions
+    edge_ids = node_ids[edges] if len(edges) else np.zeros((0, 2), dtype=np.int64)
+    expected, written = {}, {"node": {}, "edge": {}}
+    for side in ("node", "edge"):
+        for name, items in case[f"{side}_props"].items():
+            obs, pr = construct_obs([build(d) for d in items])
+            res["props"][f"{side}/{name}"] = {"construct": obs}
+            if pr is None:
+                return res, fails
+            written[side][name] = pr
+            expected[(side, name)] = ([canon(x).copy() if x.dtype.kind != "O" else x for x in pr["values"]], obs["ok"]["flags"])
+    store = zarr.storage.MemoryStore()
+    md = geff_spec.GeffMetadata(geff_version="1.0.0", directed=True, node_props_metadata={}, edge_props_metadata={})
+
+    def check(mem, what, later):
+        """compare an InMemoryGeff with the stored values of the ids it carries"""
+        nid = [int(x) - 10 for x in mem["node_ids"]]
+        pos = {tuple(e): i for i, e in enumerate(edge_ids.tolist())}
+        try:
+            eidx = [pos[tuple(int(v) for v in e)] for e in mem["edge_ids"]]
+        except KeyError:
+            fails.append(("C11:store-roundtrip-mismatch", f"{what}: an edge that was not written", None, None))
+            return
+        for (side, name), (vals, flags) in expected.items():
+            idx = nid if side == "node" else eidx
+            got = mem[f"{side}_props"].get(name)
+            if got is None:
+                fails.append(("C11:store-roundtrip-mismatch", f"{what}: {side} property {name} missing", None, None))
+                continue
+            gv = got["values"]
+            if len(gv) != len(idx):
+                fails.append(("C11:store-roundtrip-mismatch", f"{what}: {side} property {name} has {len(gv)} entries for {len(idx)} ids", None, None))
+                continue
+            gm = got["missing"]
+            for j, i in enumerate(idx):
+                if not _elem_ok(gv[j], vals[i], flags[i]) or (bool(gm[j]) if gm is not None else False) != flags[i]:
+                    key = "C11:store-rebuild-mismatch" if later else "C11:store-roundtrip-mismatch"
+                    fails.append((key, f"{what}: {side} property {name!r}, entry of id position {i} differs from the stored value",
+                                  enc_arr(gv[j]) if isinstance(gv[j], np.ndarray) else repr(gv[j]), enc_arr(vals[i])))
+                    return
+
+    def freeze(mem):
+        out = {}
+        for side in ("node", "edge"):
+            for name, pd in mem[f"{side}_props"].items():
+                out[(side, name)] = [canon(x).copy() if isinstance(x, np.ndarray) and x.dtype.kind != "O" else copy.deepcopy(x)
+                                     for x in pd["values"]]
+        return out
+
+    def unchanged(mem, frozen):
+        for (side, name), vals in frozen.items():
+            for x, f in zip(mem[f"{side}_props"][name]["values"], vals):
+                if isinstance(x, np.ndarray) and not (x.shape == f.shape and (
+                        x.ravel().tolist() == f.ravel().tolist() if x.dtype.kind in "USO" else canon(x).tobytes() == f.tobytes())):
+                    return False
+        return True
+
+    try:
+        write_arrays(store, node_ids, written["node"] or None, edge_ids, written["edge"] or None, md,
+                     zarr_format=case.get("fmt", 2))
+        g = zarr.open_group(store, mode="r")
+        for side in ("node", "edge"):
+            for name in written[side]:
+                pv = g[f"{side}s/props/{name}"]
+                res["props"][f"{side}/{name}"]["store"] = {"values": enc_arr(np.asarray(pv["values"][...])),
+                                                          "data": enc_arr(np.asarray(pv["data"][...]))}
+        # ---- one-shot readers
+        check(read_to_memory(store), "read_to_memory", False)
+        gx, _ = geff.read(store)
+        for (side, name), (vals, flags) in expected.items():
+            for i in range(len(vals)):
+                if flags[i]:
+                    continue
+                attrs = gx.nodes[int(node_ids[i])] if side == "node" else gx.edges[int(edge_ids[i][0]), int(edge_ids[i][1])]
+                if name not in attrs or not _elem_ok(np.asarray(attrs[name]), vals[i], False):
+                    fails.append(("C11:store-roundtrip-mismatch", f"geff.read (networkx): {side} property {name!r} of element {i} differs",
+                                  enc_arr(np.asarray(attrs.get(name))) if name in attrs else None, enc_arr(vals[i])))
+                    break
+        # ---- one reader, several builds, the caller edits earlier results in between
+        r = GeffReader(store)
+        r.read_node_props()
+        r.read_edge_props()
+        earlier = []                                            # (InMemoryGeff, frozen copy)
+        for b, spec in enumerate(case["builds"]):
+            nm = None if spec.get("node_mask") is None else np.asarray(spec["node_mask"], dtype=bool)
+            em = None if spec.get("edge_mask") is None else np.asarray(spec["edge_mask"], dtype=bool)
+            before = [(m, freeze(m)) for m, _ in earlier]
+            mem = r.build(node_mask=nm, edge_mask=em)
+            for m, fr in before:
+                if not unchanged(m, fr):
+                    fails.append(("C11:store-earlier-result-changed", f"build #{b} changed the arrays of an earlier result", None, None))
+                    break
+            check(mem, f"build #{b} (masks {spec.get('node_mask')}, {spec.get('edge_mask')})", b > 0)
+            earlier.append((mem, None))
+            if spec.get("edit"):
+                for side in ("node", "edge"):
+                    for pd in mem[f"{side}_props"].values():
+                        for x in pd["values"]:
+                            _scribble(x)
+    except Exception as ex:  # noqa: BLE001
+        o = {"exc": exc_name(ex), "msg": str(ex)[:200]}
+        fails.append(("C11:store-raises", f"writing/reading var-length properties raised {exc_name(ex)}: {str(ex)[:120]}", o, "ok"))
+        res["exc"] = o
+    return res, fails
+
+
 # ----------------------------------------------------------------- generators
 def fill(dtype: str, shape, k: int) -> np.ndarray:
     """deterministic, dtype-spanning contents"""
@@ -701,6 +855,59 @@ def gen_store(rng, n):
         yield {"kind": "store", "items": items, "fmt": 2 + (i % 2)}
 
 
+def gen_multistore(rng, n):
+    """stores with several var-length properties, same-named node and edge properties included"""
+    for i in range(n):
+        nn = rng.randint(1, 5)
+        pool = [(a, b) for a in range(nn) for b in range(nn) if a != b]
+        rng.shuffle(pool)
+        edges = [list(e) for e in pool[: rng.randint(1, min(5, len(pool)))]] if pool else []
+        ne = len(edges)
+
+        def prop(count, dt, r):
+            items = []
+            for _ in range(count):
+                if rng.random() < 0.2:
+                    items.append(None)
+                else:
+                    rr = rng.randint(max(0, r - 1), r)
+                    d = np_desc(fill(dt, [rng.randint(0, 3) for _ in range(rr)], rng.randint(0, 50)))
+                    d["np"]["layout"] = rng.choice(LAYOUTS)
+                    items.append(d)
+            if all(x is None for x in items):
+                items[0] = np_desc(fill(dt, [2] * r, 3))
+            return items
+
+        node_props, edge_props = {}, {}
+        dts = STORE_DTYPES + ["str"]
+        mode = i % 4
+        dt, r = rng.choice(dts), rng.randint(1, 3)
+        node_props["v"] = prop(nn, dt, r)
+        if ne:
+            if mode == 0:                      # same name, same dtype and rank
+                edge_props["v"] = prop(ne, dt, r)
+            elif mode == 1:                    # same name, other dtype and rank
+                edge_props["v"] = prop(ne, rng.choice(dts), rng.randint(1, 3))
+            elif mode == 2:                    # same name + further properties on both sides
+                edge_props["v"] = prop(ne, rng.choice(dts), r)
+                edge_props["w"] = prop(ne, rng.choice(dts), rng.randint(0, 2))
+                node_props["w"] = prop(nn, rng.choice(dts), rng.randint(0, 2))
+            else:                              # different names only
+                edge_props["e"] = prop(ne, rng.choice(dts), rng.randint(1, 3))
+                node_props["u"] = prop(nn, rng.choice(dts), rng.randint(0, 3))
+
+        def mask(k):
+            x = rng.random()
+            return None if x < 0.35 else [rng.random() < 0.6 for _ in range(k)] if x < 0.9 else [True] * k
+
+        builds = [{"node_mask": mask(nn), "edge_mask": mask(ne), "edit": rng.random() < 0.7} for _ in range(rng.randint(2, 3))]
+        if i % 5 == 0:
+            builds = [{"node_mask": None, "edge_mask": None, "edit": True}, {"node_mask": None, "edge_mask": None, "edit": True},
+                      {"node_mask": mask(nn), "edge_mask": None, "edit": False}]
+        yield {"kind": "multistore", "n_nodes": nn, "edges": edges, "node_props": node_props, "edge_props": edge_props,
+               "builds": builds, "fmt": 2 + (i % 2)}
+
+
 def layout_variants(cases, nvar):
     """every case as generated (C layout) plus `nvar` copies in which each element array is presented
     in another memory layout with the same logical contents (rotating through LAYOUTS[1:])."""
@@ -712,6 +919,8 @@ def layout_variants(cases, nvar):
     for c in cases:
         yield c
         key = "elems" if c["kind"] == "ser" else "items" if c["kind"] in ("construct", "store") else None
+        if c["kind"] == "multistore":                   # (chooses its layouts itself)
+            continue
         if c["kind"] == "de":
             for v in range(nvar):
                 k += 1
@@ -736,6 +945,9 @@ def layout_variants(cases, nvar):
 
 
 def layouts_of(case):
+    if case["kind"] == "multistore":
+        return [d["np"].get("layout", "C") for side in ("node", "edge") for items in case[f"{side}_props"].values()
+                for d in items if d is not None]
     if case["kind"] == "de":
         return [case["data"].get("layout", "C")]
     key = "elems" if case["kind"] == "ser" else "items"
@@ -815,6 +1027,8 @@ def _work(case):
         return run_construct(case)
     if k == "store":
         return run_store(case)
+    if k == "multistore":
+        return run_multistore(case)
     raise ValueError(k)
 
 
@@ -824,6 +1038,8 @@ def nontrivial(case):
         return len(case["elems"]) >= 1
     if k == "de":
         return len(case["values"]["flat"]) > 0
+    if k == "multistore":
+        return True
     return sum(1 for x in case["items"] if x is not None) >= 1
 
 
@@ -837,6 +1053,9 @@ def tag_of(case, obs):
     if k == "construct":
         c = obs["construct"]
         return "construct:" + (summ(c) if "ok" in c else c["exc"])
+    if k == "multistore":
+        same = bool(set(case["node_props"]) & set(case["edge_props"]))
+        return "multistore:" + ("exc" if "exc" in obs else "ok") + (":same-name" if same else "")
     return "store:" + ("ok" if "values" in obs.get("store", {}) else "exc")
 
 
@@ -847,7 +1066,10 @@ def run(ck: common.Check):
                "(mixed rank/dtype/non-array) sequences + adversarial offset tables for the decoder + (normalise) every "
                "multiset of <=3 entries (and a sample of 4) over a 20-entry alphabet of None/scalars/nested lists/typed "
                "arrays, each run in every distinct permutation + seeded random longer sequences + a sample through a "
-               "zarr store (formats 2 and 3); every generated case is run as generated (C-contiguous arrays) and again with each "
+               "zarr store (formats 2 and 3) + stores with several var-length properties, same-named node and edge properties "
+               "(same / other dtype and rank) among them, read by read_to_memory, geff.read (networkx) and a GeffReader whose "
+               "build() runs 2-3 times with different node/edge masks while the caller edits earlier results in place; every "
+               "generated case is run as generated (C-contiguous arrays) and again with each "
                "element array in another memory layout with the same logical contents (Fortran order, transposed and "
                "axis-swapped views, strided slices, negative strides, non-native byte order, read-only, 0-d/offset views; "
                "1 variant per case in quick, 2 in thorough, rotating); non-trivial = at least one (non-None) entry; distinct = distinct canonical JSON")
@@ -861,6 +1083,7 @@ def run(ck: common.Check):
     gen += list(gen_construct_exhaustive(ck))
     gen += list(gen_construct_random(ck.rng, 800 if ck.quick else 12000))
     gen += list(gen_store(ck.rng, 120 if ck.quick else 1500))
+    gen += list(gen_multistore(ck.rng, 400 if ck.quick else 4000))
     cases += list(layout_variants(gen, 1 if ck.quick else 2))
     ck.extra["corpus_cases"] = n_corpus
     lay_hist: dict = {}
@@ -893,6 +1116,11 @@ def run(ck: common.Check):
             else:
                 reqs.append({"op": "roundtrip", "items": items})
                 where.append((idx, "roundtrip"))
+        elif k == "multistore":
+            for side in ("node", "edge"):
+                for name, descs in c[f"{side}_props"].items():
+                    reqs.append({"op": "roundtrip", "items": [as_item(build(d)) for d in descs]})
+                    where.append((idx, ("mroundtrip", f"{side}/{name}")))
     answers = drv.ask(reqs)
     if answers is None:
         ck.broken.append({"what": "driver Drivers/C11.lean", "detail": drv.broken})
@@ -928,8 +1156,10 @@ def run(ck: common.Check):
             elif op == "construct":
                 if canon_model_construct(mo) != obs["construct"]:
                     ck.corr_broken("C11:constructVarLenProps", c, obs["construct"], mo)
-            elif op == "roundtrip":
-                st = obs.get("store", {})
+            elif op == "roundtrip" or isinstance(op, tuple):
+                pobs = obs if op == "roundtrip" else obs["props"][op[1]]
+                st = pobs.get("store", {})
+                obs = pobs
                 if "values" in st:
                     # stored table and data = model's encode of the model's normal form
                     flags = obs["construct"]["ok"]["flags"]
@@ -937,7 +1167,7 @@ def run(ck: common.Check):
                     same = mo.get("values") == st["values"] and (
                         rank0_missing or (mo.get("data", {}).get("flat") == st["data"]["flat"]
                                           and mo["data"]["dtype"] == st["data"]["dtype"]))
-                    if not same and not (len(c["items"]) == 0):
+                    if not same:
                         ck.corr_broken("C11:store-layout", c, st, {k: mo.get(k) for k in ("values", "data")})
     ck.extra["permutations_run"] = n_perm
     ck.extra["non_c_contiguous_elements_presented"] = n_noncontig
@@ -954,6 +1184,10 @@ def run(ck: common.Check):
         "logical C-order content (`a.ravel().tolist()`), dtypes are compared up to byte order; the harness presents every "
         "element in several layouts so that a layout-dependent flattening is observed as wrong contents",
         "zarr storage/codec identity per dtype is exercised (formats 2 and 3, MemoryStore), not verified",
+        "the reader (GeffReader, read_to_memory, geff.read) is below the C11 model (it is C09's subject): the store stream "
+        "checks only that every decoded element equals the stored normal form of the node/edge id it is attached to, for "
+        "several properties incl. same-named node and edge properties, across repeated builds with in-place edits of "
+        "earlier results (no buffer shared between results, earlier results unchanged by later builds)",
     ]
 
 
